@@ -1,0 +1,31 @@
+//! verification-harness hooks (cargo feature `verif-hooks`); nothing here changes behaviour.
+
+// C17: the in-flight download table lives in the private module `types`.
+pub use crate::types::{InflightBlocks, InflightState};
+use ckb_network::PeerIndex;
+
+/// peer recorded for an in-flight entry (`InflightState::peer` is crate-private)
+pub fn inflight_state_peer(state: &InflightState) -> PeerIndex {
+    state.peer
+}
+
+/// request time recorded for an in-flight entry
+pub fn inflight_state_timestamp(state: &InflightState) -> u64 {
+    state.timestamp
+}
+
+/// same knob the crate's own tests set directly (`inflight_blocks.protect_num = 0`)
+pub fn set_protect_num(inflight: &mut InflightBlocks, protect_num: usize) {
+    inflight.protect_num = protect_num;
+}
+
+/// same knob `Synchronizer` clears when IBD ends
+pub fn set_adjustment(inflight: &mut InflightBlocks, adjustment: bool) {
+    inflight.adjustment = adjustment;
+}
+
+// C16: the relay pre-checks and the reconstruction result live in private modules.
+pub use crate::relayer::ReconstructionResult;
+pub use crate::relayer::verif_hooks::{
+    block_transactions_verify, block_uncles_verify, compact_block_verify,
+};
